@@ -63,16 +63,12 @@ def keyBytes (k : Nat) : Bytes := natToBE 256 k
 
 def bitLen (n : Nat) : Nat := if n = 0 then 0 else n.log2 + 1
 
-/-- `crypto.CheckGP`. -/
+/-- `crypto.CheckGP`, interpreting the switch table regenerated from the source: `g` must have a
+row `(g, divider, residues)` and `p mod divider` must be one of the residues. -/
 def checkGP (g : Int) (p : Nat) : Bool :=
-  match g with
-  | 2 => p % 8 == 7
-  | 3 => p % 3 == 2
-  | 4 => true
-  | 5 => p % 5 == 1 || p % 5 == 4
-  | 6 => p % 24 == 19 || p % 24 == 23
-  | 7 => p % 7 == 3 || p % 7 == 5 || p % 7 == 6
-  | _ => false
+  match Facts.C09.gpTable.find? (fun r => (r.1 : Int) == g) with
+  | some (_, d, rs) => rs.contains (p % d)
+  | none => false
 
 /-- `crypto.CheckDH`; `isPrime` = `crypto.Prime` (`ProbablyPrime(64)`). -/
 def checkDH (isPrime : Nat → Bool) (g : Int) (p : Nat) : Bool :=
@@ -84,11 +80,30 @@ def inRange (x lo hi : Nat) : Bool := decide (lo < x) && decide (x < hi)
 /-- `2^{2048-64}`. -/
 def safetyMin : Nat := 2 ^ (Facts.C09.rsaKeyBits - 64)
 
-/-- `crypto.CheckDHParams(dhPrime, g, gA, gB)` for `dhPrime ≥ 2^2047` (established by `checkDH`
-before it is called, so the `Nat` subtractions below do not truncate). -/
+/-- The values `crypto.CheckDHParams` tests, by their Go names. -/
+def dhVal (g gA gB : Nat) : String → Option Nat
+  | "g" => some g
+  | "gA" => some gA
+  | "gB" => some gB
+  | _ => none
+
+/-- The bounds of `crypto.CheckDHParams`, by their Go names (definitions pinned in Props). -/
+def dhBnd (p : Nat) : String → Option Nat
+  | "one" => some 1
+  | "dhPrimeMinusOne" => some (p - 1)
+  | "safetyRangeMin" => some safetyMin
+  | "safetyRangeMax" => some (p - safetyMin)
+  | _ => none
+
+/-- `crypto.CheckDHParams(dhPrime, g, gA, gB)`, interpreting the list of `InRange` tests
+regenerated from the source (which value against which bounds), for `dhPrime ≥ 2^2047`
+(established by `checkDH` before it is called, so the `Nat` subtractions do not truncate).
+An unknown name makes the check fail (and the theorems about it unprovable). -/
 def checkDHParams (p g gA gB : Nat) : Bool :=
-  inRange g 1 (p - 1) && inRange gA 1 (p - 1) && inRange gB 1 (p - 1) &&
-  inRange gA safetyMin (p - safetyMin) && inRange gB safetyMin (p - safetyMin)
+  Facts.C09.dhParamChecks.all fun r =>
+    match dhVal g gA gB r.1, dhBnd p r.2.1, dhBnd p r.2.2 with
+    | some x, some lo, some hi => inRange x lo hi
+    | _, _, _ => false
 
 /-! ## abstract TL payloads and messages -/
 
